@@ -10,7 +10,7 @@ LEVEL_NOTE = ("Coq theorem C16_holds (every plan, every group size): from the mo
 RULE = ("group sizes {2,3,8,24,48} (thorough: 2..64) at the first, middle or last position of a 3-layer plan and under a second command; non-trivial = every case (the barrier makes sequential "
         "execution fail); the same with a `log tail --stdout --stderr` listener attached and drained; distinct by (size, position, commands, listener)")
 
-def case(ctx, rng, n, position, two_cmds, undefined_ahead=0, listener=False, named=False, shared_exec=False):
+def case(ctx, rng, n, position, two_cmds, undefined_ahead=0, listener=False, named=False, shared_exec=False, flags=()):
     members = ["grp/m%02d" % i for i in range(n)]
     targets = []
     if position in ("middle", "last"): targets.append({"path": "base"})
@@ -47,7 +47,7 @@ def case(ctx, rng, n, position, two_cmds, undefined_ahead=0, listener=False, nam
         try:
             # named=True: the group requested explicitly (`-t <every member> --deps`; in first position no member has a dependency) instead of through the change set
             extra = (["-t"] + list(members) + ["--deps"]) if named else []
-            rc, out, err, raw = rr.run("-c", *cmds, *extra, timeout=120)
+            rc, out, err, raw = rr.run("-c", *cmds, *extra, *flags, timeout=120)
         except Exception as e:
             import subprocess
             subprocess.run(["pkill", "-f", rr.repo], capture_output=True)
@@ -57,7 +57,8 @@ def case(ctx, rng, n, position, two_cmds, undefined_ahead=0, listener=False, nam
             try: lst.wait(timeout=10)
             except Exception: lst.kill()
         traces = rr.traces()
-        c = {"size": n, "position": position, "commands": cmds, "undefined_ahead": undefined_ahead, "listener": listener, "named": named, "shared_exec": shared_exec}
+        c = {"size": n, "position": position, "commands": cmds, "undefined_ahead": undefined_ahead, "listener": listener, "named": named, "shared_exec": shared_exec, "flags": list(flags)}
+        for f in flags: ctx.count("flag_" + f)
         ctx.count("shared_executable" if shared_exec else "own_executables")
         ctx.count("requested_by_name" if named else "requested_by_changes")
         ctx.count("listener_attached" if listener else "no_listener")
@@ -94,11 +95,14 @@ def run(ctx, scale):
     # all members run one shared executable
     for i, (n, pos) in enumerate([(6, "middle"), (24, "first")] if ctx.quick() else [(2, "first"), (6, "middle"), (24, "first"), (48, "last")]):
         case(ctx, random.Random(rng.getrandbits(32)), n, pos, False, shared_exec=True)
+    # invocation flags that change nothing when every member defines the command: the group still starts whole
+    for i, (n, pos) in enumerate([(5, "first"), (24, "middle")] if ctx.quick() else [(2, "first"), (5, "first"), (24, "middle"), (48, "last")]):
+        case(ctx, random.Random(rng.getrandbits(32)), n, pos, i % 2 == 1, flags=("--fail-on-undefined",), named=(i % 3 == 2))
     # the same with a `log tail` listener attached
     for i, n in enumerate([2, 5, 24] if ctx.quick() else [2, 3, 5, 8, 24, 48]):
         case(ctx, random.Random(rng.getrandbits(32)), n, ["middle", "first", "last"][i % 3], False, listener=True)
 
 def replay(ctx, c):
     c = c.get("case", c)
-    case(ctx, random.Random(ctx.seed), c["size"], c["position"], "lint" in c.get("commands", []), c.get("undefined_ahead", 0), c.get("listener", False), c.get("named", False), c.get("shared_exec", False))
+    case(ctx, random.Random(ctx.seed), c["size"], c["position"], "lint" in c.get("commands", []), c.get("undefined_ahead", 0), c.get("listener", False), c.get("named", False), c.get("shared_exec", False), tuple(c.get("flags", ())))
     return {"spec_failures": [d for _, d in ctx.spec_failures][:3], "disagreements": [d for _, d in ctx.tie_breaks][:3]}
